@@ -63,6 +63,11 @@ def sources(rng, tier):
         only = rng.choice(['.size(5);', '.nosuchmixin();', '.empty();', '.size(5); .nosuchmixin;', '@local: 1px; .size(5);'])
         ctx = rng.choice(['%s', '@media print { %s }', '.outer { %s }'])
         out.append(('empty-call', '.size(@a) %s { width: @a; }\n.empty() { }\n%s\n.big { .size(20); top: 0; }\n' % (guard, ctx % ('.small { %s }' % only))))
+    # rules inside @media that hold only variable definitions and nested @media (also through a mixin with a parameter in the condition)
+    for _ in range(max(4, n // 8)):
+        w = rng.choice(['1px', '20em', '300px'])
+        out.append(('media-vars', '@media print { .r { @p: %s; @media (min-width: @p) { bottom: @p; } } }\n.t { top: 0; }\n' % w))
+        out.append(('media-param', '.m(@p) { @media (min-width: @p) { bottom: @p; } }\n@media print { .r { .m(%s); } }\n@media screen { .s { .m(%s); left: 0; } }\n' % (w, w)))
     return out
 
 
